@@ -2,3 +2,4 @@ import H4.Props.C03
 import H4.Props.C05
 import H4.Props.C06
 import H4.Props.C16
+import H4.Props.C13Atom
